@@ -196,8 +196,8 @@ func (c *Ctx) Finish(level string) {
 	if len(c.notes) > 0 {
 		cov["notes"] = c.notes
 	}
-	if c.Cov.Samples == nil {
-		cov["samples"] = []interface{}{}
+	if len(c.Cov.Samples) == 0 {
+		cov["samples"] = []interface{}{map[string]interface{}{"note": "the run ended before its first sampling point; see the replay files / counts"}}
 	}
 	c.Assume = append(c.Assume, "TLC explored the stated configuration completely unless exhaustive=false",
 		"the concretiser and the abstraction alpha (table lookups, self-checked) are trusted; verdicts come only from real-code behaviour")
